@@ -151,20 +151,23 @@ def histogram2d(
         xmin = xmax = 0.5 * (xmin + xmax)
     if autoymin and autoymax and _too_close(ymin, ymax):
         ymin = ymax = 0.5 * (ymin + ymax)
-    if xmin == xmax:
-        if xmin == 0.0:
-            xmin = -0.1
-            xmax = 0.1
-        else:
-            xmin = xmin - 0.05 * abs(xmin)
-            xmax = xmax + 0.05 * abs(xmax)
-    if ymin == ymax:
-        if ymin == 0.0:
-            ymin = -0.1
-            ymax = 0.1
-        else:
-            ymin = ymin - 0.05 * abs(ymin)
-            ymax = ymax + 0.05 * abs(ymax)
+    # A requested limit is kept as it is: when the data lie entirely on the other
+    # side of it (or just reach it), only the automatic limit opposite to it moves
+    def _open_up(vmin, automin, vmax, automax):
+        if automax and not automin:
+            vmax = max(vmax, vmin)
+        if automin and not automax:
+            vmin = min(vmin, vmax)
+        if vmin == vmax:
+            pad = 0.1 if vmin == 0.0 else 0.05 * abs(vmin)
+            if automin or not automax:
+                vmin = vmin - pad
+            if automax or not automin:
+                vmax = vmax + pad
+        return vmin, vmax
+
+    xmin, xmax = _open_up(xmin, autoxmin, xmax, autoxmax)
+    ymin, ymax = _open_up(ymin, autoymin, ymax, autoymax)
 
     dx = xmax - xmin
     dy = ymax - ymin
